@@ -575,6 +575,157 @@ def run_pool(res, binp, seed, total, tag, test="TestScenarios", shards=None, cha
     return agg
 
 
+# ----------------------------------------------------------------------------- worker pool: step-level trace acceptance
+
+POOLSTEP_EXTRA = {"worker-pool/zz_verif.go": "package workerpool\n\n// accessors for the step-level harness (scratch copy only)\n\n"
+                  "func (p *Pool) VerifQueueLen() int { return p.taskQueue.Len() }\n\nfunc (p *Pool) VerifExpanded() int32 { return p.expanded }\n\n"
+                  "func (p *Pool) VerifState() uint32 { return p.state }\n"}
+
+
+def need_poolstep_harness(res):
+    """scratch copy of the working tree whose worker-pool package has (1) sync / sync/atomic rewritten to the shims and (2) its channel,
+    select, go, timer and context-cancel constructs rewritten to garrshim/vchan by harness/poolstep/rewrite; the harness built against it.
+    Any failure (unknown construct, build error) is a broken correspondence."""
+    s = scratch_dir()
+    make_copy(instrument=True, dst_name="repo_step", sync_pkgs=("queue", "adder", "worker-pool"))
+    rdir = os.path.join(s, "h_poolrewrite")
+    shutil.rmtree(rdir, ignore_errors=True)
+    shutil.copytree(os.path.join(HARNESS, "poolstep", "rewrite"), rdir)
+    open(os.path.join(rdir, "go.mod"), "w").write("module garrharness/poolrewrite\n\ngo 1.23\n")
+    rbin = os.path.join(s, "bin_poolrewrite")
+    rc, out = sh(["go", "build", "-o", rbin, "."], cwd=rdir, env=GOENV, timeout=600)
+    if rc != 0:
+        res.add(Problem("correspondence", "the worker-pool instrumenter does not build", out[-1500:]))
+        return None
+    wp = os.path.join(s, "repo_step", "worker-pool")
+    files = sorted(os.path.join(wp, f) for f in os.listdir(wp) if f.endswith(".go")) if os.path.isdir(wp) else []
+    if not files:
+        res.add(Problem("correspondence", "worker-pool: no source files in the working tree"))
+        return None
+    rc, out = sh([rbin, *files], env=GOENV, timeout=120)
+    if rc != 0:
+        res.add(Problem("correspondence", "worker-pool uses a construct the step-level instrumenter does not know: the step-level tie to the model is broken",
+                        out[-1500:], key="poolstep-rewrite"))
+        return None
+    for rel, content in POOLSTEP_EXTRA.items():
+        open(os.path.join(s, "repo_step", rel), "w").write(content)
+    binp, out2 = build_harness("poolstep", repo_dir="repo_step")
+    if not binp:
+        res.add(Problem("correspondence", "step-level pool harness does not build against the instrumented copy of the working tree", out2[-2000:], key="poolstep-build"))
+        return None
+    res.notes.append("poolstep instrumenter: " + out.strip()[-300:])
+    return binp
+
+
+def poolstep_shard(binp, seed, first, runs, tmpdir, idx):
+    monp = os.path.join(tmpdir, f"mon_poolstep_{idx}_{first}.txt")
+    cmd = [binp, "poolstep", "-seed", str(seed), "-first", str(first), "-runs", str(runs), "-mon", monp]
+    h = subprocess.Popen(["timeout", "-s", "KILL", str(max(600, runs // 10)), *cmd], stdout=subprocess.PIPE, stderr=subprocess.PIPE)
+    m = subprocess.Popen([MODEL_BIN, "poolstep"], stdin=h.stdout, stdout=subprocess.PIPE, stderr=subprocess.PIPE, text=True)
+    h.stdout.close()
+    mout, merr = m.communicate()
+    herr = h.stderr.read().decode(errors="replace")
+    hrc = h.wait()
+    o = {"accepted": 0, "rejected": [], "steps": 0, "cov": {}, "mon_ok": 0, "monfail": [], "crash": None, "progs": {}, "first_accept": None,
+         "cmd": " ".join(cmd), "opmix": {}, "maxrunning": 0}
+    if hrc != 0:
+        o["crash"] = f"harness exit {hrc}: {herr[-1200:]}"
+    for line in mout.split("\n"):
+        if line.startswith("ACCEPT "):
+            o["accepted"] += 1
+            if o["first_accept"] is None:
+                o["first_accept"] = line[:400]
+        elif line.startswith("REJECT "):
+            o["rejected"].append(line[:900])
+        elif line.startswith("COV "):
+            _, k, v = line.split(" ")
+            o["cov"][k] = o["cov"].get(k, 0) + int(v)
+        elif line.startswith("TOTAL "):
+            mm = re.search(r"steps=(\d+)", line)
+            o["steps"] += int(mm.group(1)) if mm else 0
+    if "TOTAL" not in mout and not o["crash"]:
+        o["crash"] = f"model driver produced no TOTAL line: {merr[-500:]}"
+    try:
+        for line in open(monp):
+            line = line.rstrip("\n")
+            f3 = line.split(" ", 2)
+            if len(f3) < 3 or not f3[1].lstrip("-").isdigit():
+                continue
+            if line.startswith("RUN "):
+                o["progs"][int(f3[1])] = f3[2]
+            elif line.startswith("OPMIX "):
+                for kv in f3[2].split():
+                    k, v = kv.split("=")
+                    o["opmix"][k] = o["opmix"].get(k, 0) + int(v)
+            elif line.startswith("MON "):
+                if f3[2].startswith("ok"):
+                    o["mon_ok"] += 1
+                    mm = re.search(r"maxrunning=(\d+)", f3[2])
+                    if mm:
+                        o["maxrunning"] = max(o["maxrunning"], int(mm.group(1)))
+                else:
+                    o["monfail"].append((int(f3[1]), f3[2]))
+        os.unlink(monp)
+    except FileNotFoundError:
+        pass
+    return o
+
+
+def run_poolstep(res, binp, seed, total, tag, shards=None):
+    """sharded step-level runs of the instrumented pool: every trace line replayed against Garr.Pool.step + Go monitors"""
+    shards = shards or min(NCPU, max(1, total // 100))
+    per = (total + shards - 1) // shards
+    tmpdir = scratch_dir()
+    t0 = time.time()
+    with ThreadPoolExecutor(max_workers=shards) as ex:
+        outs = list(ex.map(lambda k: poolstep_shard(binp, seed, k * per, per, tmpdir, k), range(shards)))
+    wall = max(1e-6, time.time() - t0)
+    agg = {"runs": 0, "accepted": 0, "rejected": 0, "steps_accepted": 0, "monitor_ok": 0, "monitor_failures": 0, "model_pc_hits": {}, "op_mix": {},
+           "distinct_programs": 0, "max_simultaneously_running": 0}
+    progs = set()
+    label = "pool-step"
+    for o in outs:
+        agg["accepted"] += o["accepted"]
+        agg["steps_accepted"] += o["steps"]
+        agg["monitor_ok"] += o["mon_ok"]
+        agg["runs"] += len(o["progs"])
+        agg["max_simultaneously_running"] = max(agg["max_simultaneously_running"], o["maxrunning"])
+        progs.update(o["progs"].values())
+        for k, v in o["cov"].items():
+            agg["model_pc_hits"][k] = agg["model_pc_hits"].get(k, 0) + v
+        for k, v in o["opmix"].items():
+            agg["op_mix"][k] = agg["op_mix"].get(k, 0) + v
+        if o["crash"]:
+            res.add(Problem("correspondence", f"{label}: {o['crash']}", {"cmd": o["cmd"]}))
+        for line in o["rejected"]:
+            agg["rejected"] += 1
+            if agg["rejected"] <= 5:
+                res.add(Problem("correspondence", f"{label}: a step of the instrumented pool is not a step of the Lean model",
+                                {"reject": line, "replay_cmd": o["cmd"], "note": "run index = REJECT number - 1 + first; replay with -only <index>"}, key=line[:200]))
+        seen_runs = set()
+        for k, rest in o["monfail"]:
+            mm = re.match(r"FAIL (C\d+(?:,C\d+)*) (.*)", rest)
+            if mm and tag and tag not in mm.group(1).split(","):
+                continue
+            if k not in seen_runs:
+                agg["monitor_failures"] += 1
+                seen_runs.add(k)
+            if agg["monitor_failures"] <= 30:
+                res.add(Problem("monitor", f"{label}: {(mm.group(2) if mm else rest)[:600]}",
+                                {"program": o["progs"].get(k), "replay_cmd": re.sub(r"-first \d+ -runs \d+", f"-only {k}", o["cmd"])},
+                                key=(o["progs"].get(k) or "") + " " + rest[:200]))
+    agg["distinct_programs"] = len(progs)
+    agg["model_pc_hits"] = dict(sorted(agg["model_pc_hits"].items()))
+    agg["runs_per_s"] = round(agg["runs"] / wall, 1)
+    agg["steps_per_s"] = round(agg["steps_accepted"] / wall, 1)
+    if agg["runs"] and agg["accepted"] + agg["rejected"] != agg["runs"]:
+        res.add(Problem("correspondence", f"{label}: {agg['runs']} runs but {agg['accepted']} accepted + {agg['rejected']} rejected traces", None, key="poolstep-count"))
+    if outs and outs[0]["progs"]:
+        k0 = sorted(outs[0]["progs"])[0]
+        res.samples.append({"mode": label, "program": outs[0]["progs"][k0], "model_verdict": outs[0]["first_accept"]})
+    return agg
+
+
 # ----------------------------------------------------------------------------- regenerated access facts (C14, C19)
 
 PKGS = ["queue", "adder", "circuit-breaker", "worker-pool", "retry"]
